@@ -110,6 +110,9 @@ func lookupTimingScenarios() []*scen {
 			OutcomesFor: map[string][]string{"u": {"fail"}}, CtxLikeErr: true, Threads: map[string][]string{"a": {"lookup:u"}}},
 		{Name: "L10 two callers, the service fails with an error that looks like a timeout", Declared: []string{"d"}, UseTime: true, Horizon: m16,
 			OutcomesFor: map[string][]string{"u": {"fail"}}, CtxLikeErr: true, Threads: map[string][]string{"a": {"lookup:u"}, "b": {"lookup:u"}}},
+		{Name: "L11 a patient caller behind three successive leaders that give up", Declared: []string{"d"}, UseTime: true, Horizon: m16,
+			OutcomesFor: map[string][]string{"u": {"hang-unless-patient"}}, CtxFor: map[string]string{"l1": "cancel", "l2": "cancel", "l3": "cancel", "p": "patient"},
+			Threads: map[string][]string{"l1": {"lookup:u"}, "l2": {"lookup:u"}, "l3": {"lookup:u"}, "p": {"lookup:u", "read:u"}, "zenv": {"cancelctx:l1", "cancelctx:l2", "cancelctx:l3"}}},
 		{Name: "L6 three callers (none, 1s, cancelled), service answers or hangs", Declared: []string{"d"}, UseTime: true, Horizon: m16,
 			OutcomesFor: map[string][]string{"u": {"ok", "hang"}}, CtxFor: map[string]string{"b": "1s", "c": "cancel"}, Events: []string{"cancel:c"},
 			Threads: map[string][]string{"a": {"lookup:u", "read:u"}, "b": {"lookup:u"}, "c": {"lookup:u"}}},
